@@ -28,7 +28,8 @@
     Boolean functions denoted by an edge (DD/Sem.v semantics). *)
 From Coq Require Import List NArith PArith Bool Arith FMapPositive.
 From OxiVerif Require Import Num.Natural Num.NatBase Num.NaturalProofs Num.NaturalAddProofs
-  Num.NaturalCmpProofs Num.NaturalDigitsProofs Num.NaturalExamples Num.Saturating Num.SaturatingProofs.
+  Num.NaturalCmpProofs Num.NaturalDigitsProofs Num.NaturalFmtProofs Num.NaturalExamples
+  Num.Saturating Num.SaturatingProofs.
 From OxiVerif Require Import DD.Table DD.TableProofs DD.SatCount DD.SatCountProofs DD.SatQueryProofs.
 Import ListNotations.
 
@@ -156,6 +157,26 @@ Theorem C12_nat_try_into_u128 : forall a, Inv a ->
                     end.
 Proof. exact try_into_u128_spec. Qed.
 Print Assumptions C12_nat_try_into_u128.
+
+(** [fmt::Binary]: [?] (modelled as [None]) exactly for NaN; otherwise the bits
+    of the number, most significant first, no leading zeros ([bits_val] reads a
+    list of binary digits) *)
+Theorem C12_nat_fmt_bin : forall a, Inv a ->
+  match val a with
+  | None => fmt_bin a = None
+  | Some v =>
+    exists bs, fmt_bin a = Some bs /\ bits_val bs = v /\ is_bits bs /\
+      (v = 0%N -> bs = [0%N]) /\ (v <> 0%N -> hd 0%N bs = 1%N /\ N.of_nat (length bs) = N.size v)
+  end.
+Proof. exact fmt_bin_spec. Qed.
+Print Assumptions C12_nat_fmt_bin.
+
+Theorem C12_nat_example_fmt_bin :
+  fmt_bin (from_u64 10) = Some [1; 0; 1; 0]%N /\ fmt_bin (from_u64 0) = Some [0%N] /\
+  fmt_bin (mkNat [3%N] U64MAX) = None /\
+  option_map (@length N) (fmt_bin (from_u128 (2 ^ 100 + 1))) = Some 101.
+Proof. exact ex_fmt_bin. Qed.
+Print Assumptions C12_nat_example_fmt_bin.
 
 (** non-vacuity: values of every shape satisfy the invariant; concrete sums,
     shifts, comparisons; NaN arises from numbers exactly at the exponent bound *)
